@@ -58,6 +58,7 @@ var nonBlockingPkgs = map[string]bool{
 	"encoding/binary": true, "unicode/utf8": true, "unsafe": true, "math": true, "context": true,
 	"github.com/zeebo/errs": true, "time": true, "encoding/json": true, "encoding/base64": true,
 	"net/textproto": true, "net/http": true, "syscall": true, "net": true, "io": true,
+	"log": true, "path/filepath": true, "path": true, // debug logging (build tag `debug`): assumed not to block
 	"google.golang.org/protobuf/proto": true, "google.golang.org/protobuf/encoding/protojson": true,
 }
 
